@@ -170,6 +170,7 @@ type mixWeights struct {
 	load, store, loadOrStore, loadAndStore, loadOrCompute, compute, loadAndDelete, del, clear, rng, filler, size int
 	// cache only
 	getExp, getTTL, refresh, delExpired int
+	setDef, setCB int
 }
 
 var defaultMapMix = mixWeights{load: 20, store: 18, loadOrStore: 10, loadAndStore: 8, loadOrCompute: 8, compute: 12, loadAndDelete: 8, del: 8, clear: 3, rng: 3, filler: 8}
@@ -223,8 +224,12 @@ func (g *genCtx) mapOp(mx mixWeights, hot int, filler *int) Op {
 
 func (g *genCtx) cacheOp(mx mixWeights, hot int, filler *int) Op {
 	k := g.r.Intn(hot)
-	ws := []int{mx.load, mx.store, mx.loadOrStore, mx.loadAndStore, mx.loadOrCompute, mx.compute, mx.loadAndDelete, mx.del, mx.clear, mx.rng, mx.filler, mx.size, mx.getExp, mx.getTTL, mx.refresh, mx.delExpired}
+	ws := []int{mx.load, mx.store, mx.loadOrStore, mx.loadAndStore, mx.loadOrCompute, mx.compute, mx.loadAndDelete, mx.del, mx.clear, mx.rng, mx.filler, mx.size, mx.getExp, mx.getTTL, mx.refresh, mx.delExpired, mx.setDef, mx.setCB}
 	switch g.pick(ws) {
+	case 16:
+		return Op{K: CSetDefaultExpiration, D: g.ttl()}
+	case 17:
+		return Op{K: CSetCallback, N: g.r.Intn(2)}
 	case 0:
 		return Op{K: CGet, Key: k}
 	case 1:
@@ -298,6 +303,22 @@ func genConc(prop string, seed uint64, tier string) *ConcScenario {
 	switch prop {
 	case "C02", "C06":
 		family = "cache"
+	case "C14":
+		switch g.r.Intn(4) {
+		case 0:
+			g.mapContainer(sc, []string{"map"})
+		case 1:
+			g.mapContainer(sc, []string{"mapof_string_any", "mapof_int_ptr"})
+		default:
+			family = "cache"
+		}
+		if family == "cache" {
+			g.cacheContainer(sc, []string{"cache", "cacheof_string_any", "cacheof_int_ptr"})
+		}
+		maxTasks = 8
+		if tier == "thorough" {
+			maxTasks = 32
+		}
 	case "C03":
 		g.mapContainer(sc, []string{"map"})
 	case "C04":
@@ -319,7 +340,7 @@ func genConc(prop string, seed uint64, tier string) *ConcScenario {
 			family = "cache"
 		}
 	}
-	if family == "cache" {
+	if family == "cache" && sc.Family == "" {
 		g.cacheContainer(sc, CacheKinds)
 	}
 	cacheFam := sc.Family == "cache"
@@ -345,6 +366,11 @@ func genConc(prop string, seed uint64, tier string) *ConcScenario {
 	case "C06":
 		mx.del, mx.loadAndDelete, mx.delExpired = 14, 14, 18
 		mx.rng = 1
+	case "C14":
+		mx.rng = 8
+		mx.clear = 5
+		mx.filler = 14
+		mx.setDef, mx.setCB = 6, 6
 	}
 	if cacheFam && (prop == "C06" || g.r.Bool(0.3)) {
 		sc.CBKind = 1
